@@ -366,6 +366,11 @@ func nasRunCase(r *report.Report, l *report.Local, prop string, c nasCase) {
 		if derr != nil {
 			return nasAbstract{}, derr
 		}
+		// a value array longer than the IE's length must hold nothing beyond that length (octets of whatever followed on
+		// the wire would be read by every accessor of an absent octet: the SD of an SST-only S-NSSAI)
+		if stray := nasStrayOctets(reflect.ValueOf(m), ""); stray != "" {
+			r.Violate(key("decoded-value-array-holds-octets-beyond-its-length"), cs, stray, nil)
+		}
 		a1, xerr := nasExtract(t, m)
 		if xerr == nil {
 			// the caller re-uses its receive buffer: the decoded message must not change with it
@@ -541,4 +546,41 @@ func nasBreakLen(v reflect.Value) (restore func(), ok bool) {
 		}
 	}
 	return nil, false
+}
+
+
+// nasStrayOctets walks a decoded message and reports the first IE whose fixed-size Octet array is non-zero beyond Len.
+func nasStrayOctets(v reflect.Value, path string) string {
+	switch v.Kind() {
+	case reflect.Ptr, reflect.Interface:
+		if v.IsNil() {
+			return ""
+		}
+		return nasStrayOctets(v.Elem(), path)
+	case reflect.Struct:
+		var ln, oc reflect.Value
+		if f, ok := v.Type().FieldByName("Len"); ok && len(f.Index) == 1 {
+			ln = v.Field(f.Index[0])
+		}
+		if f, ok := v.Type().FieldByName("Octet"); ok && len(f.Index) == 1 {
+			oc = v.Field(f.Index[0])
+		}
+		if ln.IsValid() && oc.IsValid() && oc.Kind() == reflect.Array && (ln.Kind() == reflect.Uint8 || ln.Kind() == reflect.Uint16) {
+			for i := int(ln.Uint()); i < oc.Len(); i++ {
+				if oc.Index(i).Uint() != 0 {
+					return fmt.Sprintf("%s: Len %d, Octet[%d] = %#x", path+"."+v.Type().Name(), ln.Uint(), i, oc.Index(i).Uint())
+				}
+			}
+			return ""
+		}
+		for i := 0; i < v.NumField(); i++ {
+			if !v.Type().Field(i).IsExported() {
+				continue
+			}
+			if s := nasStrayOctets(v.Field(i), path+"."+v.Type().Field(i).Name); s != "" {
+				return s
+			}
+		}
+	}
+	return ""
 }
